@@ -66,16 +66,116 @@ def write_arc(path, T, base, n_atoms, cell=False):
                 fh.write("%6d  C%d %18.10f %18.10f %18.10f %5d\n" % (a + 1, a, (base + i + 1) * 1.0, (a + 1) * 1.0, 0.5, 1))
 
 
+# ---- hand-written input files that use the legal freedom of the text formats (style != "mdtraj") -----------
+def _perm(n_atoms, fid, style):
+    """order in which the atom lines of frame fid are written (differs from frame to frame)"""
+    idx = list(range(n_atoms))
+    k = (fid * 3 + 1) % max(n_atoms, 1)
+    idx = idx[k:] + idx[:k]
+    if fid % 2 == 1:
+        idx.reverse()
+    return idx
+
+
+def write_lammpstrj_hand(path, T, base, n_atoms, cell, style):
+    # style "shuffled": ITEM: ATOMS id type x y z, atom lines in a different order in every frame
+    # style "columns":  ITEM: ATOMS type q id vx xu yu zu (other column order, extra columns, unwrapped keywords), shuffled
+    with open(path, "w") as fh:
+        for i in range(T):
+            fid = base + i
+            L = (fid + 2.0) * 10.0
+            fh.write("ITEM: TIMESTEP\n%d\nITEM: NUMBER OF ATOMS\n%d\nITEM: BOX BOUNDS pp pp pp\n" % (fid * 100, n_atoms))
+            for _ in range(3):
+                fh.write("%.6e %.6e\n" % (0.0, L))
+            if style == "columns":
+                fh.write("ITEM: ATOMS type q id vx xu yu zu\n")
+            else:
+                fh.write("ITEM: ATOMS id type x y z\n")
+            for a in _perm(n_atoms, fid, style):
+                x, y, z = (fid + 1) * 1.0, (a + 1) * 1.0, 0.5
+                if style == "columns":
+                    fh.write("1 -0.25 %d 0.125 %.5f %.5f %.5f\n" % (a + 1, x, y, z))
+                else:
+                    fh.write("%d 1 %.5f %.5f %.5f\n" % (a + 1, x, y, z))
+
+
+def write_xyz_hand(path, T, base, n_atoms, cell, style):
+    # comment lines of varying content (empty, text, numbers), leading blanks, other element symbols, an extra column
+    comments = ["", "frame with a comment that is rather long and contains 3 numbers 1.0 2.0 3.0", "7", "  indented", "Lattice=\"1 0 0\""]
+    with open(path, "w") as fh:
+        for i in range(T):
+            fid = base + i
+            fh.write("  %d\n%s\n" % (n_atoms, comments[fid % len(comments)]))
+            for a in range(n_atoms):
+                sym = ["C", "N", "Xx", "O"][a % 4]
+                fh.write("  %-3s %14.6f %12.6f %10.6f   %d\n" % (sym, (fid + 1) * 1.0, (a + 1) * 1.0, 0.5, a))
+
+
+def write_gro_hand(path, T, base, n_atoms, cell, style):
+    # non-sequential residue / atom numbers, velocities present, title with text before t=
+    with open(path, "w") as fh:
+        for i in range(T):
+            fid = base + i
+            fh.write("hand written, frame %d of a test t= %d.00000\n%5d\n" % (fid, fid, n_atoms))
+            for a in range(n_atoms):
+                fh.write("%5d%-5s%5s%5d%8.3f%8.3f%8.3f%8.4f%8.4f%8.4f\n" % (
+                    (7 + 13 * a) % 100000, "LIG", "C%d" % a, (900 + 41 * a) % 100000, (fid + 1) * 0.1, (a + 1) * 0.1, 0.05,
+                    0.1, -0.2, 0.3))
+            L = fid + 2.0
+            fh.write("%10.5f%10.5f%10.5f\n" % (L, L, L))
+
+
+def write_pdb_hand(path, T, base, n_atoms, cell, style):
+    # MODEL blocks, non-sequential serials and residue numbers, HETATM records, TER, optional CRYST1
+    with open(path, "w") as fh:
+        fh.write("REMARK   hand written test file\n")
+        if cell:
+            L = (base + 2.0) * 10.0
+            fh.write("CRYST1%9.3f%9.3f%9.3f%7.2f%7.2f%7.2f P 1           1\n" % (L, L, L, 90.0, 90.0, 90.0))
+        for i in range(T):
+            fid = base + i
+            fh.write("MODEL     %4d\n" % (i + 1))
+            for a in range(n_atoms):
+                rec = "HETATM" if a % 3 == 2 else "ATOM  "
+                fh.write("%s%5d %-4s %3s %1s%4d    %8.3f%8.3f%8.3f%6.2f%6.2f          %2s\n" % (
+                    rec, 10 + 7 * a, "C%d" % a, "LIG", "A", 5 + 11 * a, (fid + 1) * 1.0, (a + 1) * 1.0, 0.5, 1.0, 0.0, "C"))
+            fh.write("TER\nENDMDL\n")
+        fh.write("END\n")
+
+
+def write_mdcrd_hand(path, T, base, n_atoms, cell, style):
+    # style "title_empty": empty title line; "title_numeric": a title that looks like a line of coordinates
+    title = "" if style == "title_empty" else "   1.000   2.000   3.000   4.000   5.000   6.000"
+    with open(path, "w") as fh:
+        fh.write(title + "\n")
+        for i in range(T):
+            fid = base + i
+            vals = []
+            for a in range(n_atoms):
+                vals += [(fid + 1) * 1.0, (a + 1) * 1.0, 0.5]
+            for j in range(0, len(vals), 10):
+                fh.write("".join("%8.3f" % v for v in vals[j:j + 10]) + "\n")
+            if cell:
+                L = (fid + 2.0) * 10.0
+                fh.write("%8.3f%8.3f%8.3f\n" % (L, L, L))
+
+
+HAND = {"lammpstrj": write_lammpstrj_hand, "xyz": write_xyz_hand, "gro": write_gro_hand, "pdb": write_pdb_hand,
+        "mdcrd": write_mdcrd_hand}
+
 _made = {}
 
 
-def make_file(fmt, T, base, n_atoms, d, cell=True):
-    key = (fmt, T, base, n_atoms, cell)
+def make_file(fmt, T, base, n_atoms, d, cell=True, style="mdtraj"):
+    key = (fmt, T, base, n_atoms, cell, style)
     if key in _made:
         return _made[key]
-    p = os.path.join(d, "f_%d_%d_%d_%d.%s" % (T, base, n_atoms, int(cell), fmt))
+    tag = "" if style == "mdtraj" else "_" + style
+    p = os.path.join(d, "f_%d_%d_%d_%d%s.%s" % (T, base, n_atoms, int(cell), tag, fmt))
     if not os.path.exists(p):
-        if fmt == "arc":
+        if style != "mdtraj":
+            HAND[fmt](p, T, base, n_atoms, cell, style)
+        elif fmt == "arc":
             write_arc(p, T, base, n_atoms, cell)
         else:
             make_traj(T, base, n_atoms, cell).save(p)
@@ -120,8 +220,10 @@ def frame_obs(t, ai, n_atoms):
 def top_atoms(t, fmt):
     if t.topology is None:
         return None
-    if fmt == "arc":
-        return [int(a.name[1:]) if a.name[1:].isdigit() else -1 for a in t.topology.atoms]
+    names = [a.name for a in t.topology.atoms]
+    if fmt == "arc" or (names and all(len(n) > 1 and n[0] == "C" and n[1:].isdigit() for n in names)):
+        # files whose atoms are called C0, C1, ... (arc, hand-written gro / pdb with arbitrary residue numbers)
+        return [int(n[1:]) if n[1:].isdigit() else -1 for n in names]
     return [a.residue.resSeq - 1 for a in t.topology.atoms]
 
 
@@ -157,11 +259,11 @@ def traj_obs(t, fmt, ai, n_atoms, ref):
 _ref = {}
 
 
-def reference(fmt, T, base, n_atoms, d, cell=True):
+def reference(fmt, T, base, n_atoms, d, cell=True, style="mdtraj"):
     """time and cell of every frame in the FULL load of the file (the right-hand side of C02)"""
-    key = (fmt, T, base, n_atoms, cell)
+    key = (fmt, T, base, n_atoms, cell, style)
     if key not in _ref:
-        p = make_file(fmt, T, base, n_atoms, d, cell)
+        p = make_file(fmt, T, base, n_atoms, d, cell, style)
         kw = {} if ("." + fmt) in TOPEXT else {"top": top_path(n_atoms, d)}
         try:
             t = md.load(p, **kw)
@@ -178,26 +280,42 @@ def reference(fmt, T, base, n_atoms, d, cell=True):
     return _ref[key]
 
 
-def run_case(case, d):
+def _setup(case, d, top_obj=None):
     n_atoms = int(case.get("n_atoms", N_ATOMS))
     cell = bool(case.get("cell", True))
+    style = case.get("style", "mdtraj")
     fmt = case["fmt"]
-    kind = case["kind"]
     ai = case.get("ai")
     Ts = case["Ts"]
-    paths = [make_file(fmt, T, 10 * j, n_atoms, d, cell) for j, T in enumerate(Ts)]
+    paths = [make_file(fmt, T, 10 * j, n_atoms, d, cell, style) for j, T in enumerate(Ts)]
     ref = {}
     for j, T in enumerate(Ts):
-        r = reference(fmt, T, 10 * j, n_atoms, d, cell)
+        r = reference(fmt, T, 10 * j, n_atoms, d, cell, style)
         if r is None:
             ref = None
             break
         ref.update(r)
     kw = {}
     if ("." + fmt) not in TOPEXT:
-        kw["top"] = top_path(n_atoms, d)
+        kw["top"] = top_obj if top_obj is not None else top_path(n_atoms, d)
     if ai is not None:
         kw["atom_indices"] = list(ai)
+    return fmt, ai, n_atoms, paths, ref, kw
+
+
+def _err(e, chunks):
+    if isinstance(e, Timeout):
+        return {"err": "Timeout", "chunks": chunks}
+    if isinstance(e, NotImplementedError):
+        return {"err": "NotImplementedError", "chunks": chunks}
+    return {"err": type(e).__name__, "msg": str(e)[:160], "chunks": chunks}
+
+
+def run_case(case, d, top_obj=None):
+    if case["kind"] == "history":
+        return run_history(case, d)
+    fmt, ai, n_atoms, paths, ref, kw = _setup(case, d, top_obj)
+    kind = case["kind"]
     chunks = []
     try:
         signal.alarm(15)
@@ -221,14 +339,55 @@ def run_case(case, d):
                 kw["stride"] = case["stride"]
             return {"traj": traj_obs(md.load(paths, **kw), fmt, ai, n_atoms, ref)}
         raise AssertionError(kind)
-    except Timeout:
-        return {"err": "Timeout", "chunks": chunks}
-    except NotImplementedError:
-        return {"err": "NotImplementedError", "chunks": chunks}
-    except Exception as e:  # noqa
-        return {"err": type(e).__name__, "msg": str(e)[:160], "chunks": chunks}
+    except BaseException as e:  # noqa
+        if isinstance(e, (KeyboardInterrupt, SystemExit)):
+            raise
+        return _err(e, chunks)
     finally:
         signal.alarm(0)
+
+
+def run_history(case, d):
+    """a sequence of partial loads that share ONE Topology object (md.load(top=<object>)): steps are ordinary
+    cases; events = ["run", j] (step j to completion) | ["start", j] (create the iterload generator of step j) |
+    ["next", j] (take one chunk) | ["drop", j] (abandon the generator).  Returns one observation per step."""
+    import gc
+    n_atoms = int(case.get("n_atoms", N_ATOMS))
+    top_obj = md.load(top_path(n_atoms, d)).topology
+    steps = case["steps"]
+    obs = [None] * len(steps)
+    gens = {}
+    for ev, j in case["events"]:
+        st = steps[j]
+        try:
+            signal.alarm(15)
+            if ev == "run":
+                obs[j] = run_case(st, d, top_obj)
+            elif ev == "start":
+                fmt, ai, na, paths, ref, kw = _setup(st, d, top_obj)
+                gens[j] = (md.iterload(paths[0], chunk=st["chunk"], stride=st["stride"], skip=st["skip"], **kw), fmt, ai, na, ref)
+                obs[j] = {"chunks": [], "exhausted": False}
+            elif ev == "next":
+                if j in gens and not obs[j].get("exhausted") and "err" not in obs[j]:
+                    g, fmt, ai, na, ref = gens[j]
+                    try:
+                        ch = next(g)
+                        obs[j]["chunks"].append(traj_obs(ch, fmt, ai, na, ref))
+                    except StopIteration:
+                        obs[j]["exhausted"] = True
+            elif ev == "drop":
+                g = gens.pop(j, None)
+                del g
+                gc.collect()
+        except BaseException as e:  # noqa
+            if isinstance(e, (KeyboardInterrupt, SystemExit)):
+                raise
+            r = _err(e, (obs[j] or {}).get("chunks", []))
+            r["exhausted"] = False
+            obs[j] = r
+        finally:
+            signal.alarm(0)
+    return {"steps": obs, "stale_subset_override": "subset" in top_obj.__dict__}
 
 
 def child(cases, idxs, d, wfd):
@@ -313,14 +472,17 @@ def main():
     d = os.getcwd()
     cases = req["cases"]
     # create files and references up front (parent) so that children only read
+    flat = []
     for c in cases:
+        flat += c["steps"] if c.get("kind") == "history" else [c]
+    for c in flat:
         for j, T in enumerate(c["Ts"]):
             try:
-                make_file(c["fmt"], T, 10 * j, int(c.get("n_atoms", N_ATOMS)), d, bool(c.get("cell", True)))
+                make_file(c["fmt"], T, 10 * j, int(c.get("n_atoms", N_ATOMS)), d, bool(c.get("cell", True)), c.get("style", "mdtraj"))
             except Exception as e:  # noqa
                 sys.stderr.write("cannot write %s T=%d: %r\n" % (c["fmt"], T, e))
                 continue
-            reference(c["fmt"], T, 10 * j, int(c.get("n_atoms", N_ATOMS)), d, bool(c.get("cell", True)))
+            reference(c["fmt"], T, 10 * j, int(c.get("n_atoms", N_ATOMS)), d, bool(c.get("cell", True)), c.get("style", "mdtraj"))
         top_path(int(c.get("n_atoms", N_ATOMS)), d)
     top_path(N_ATOMS, d)
     results = [None] * len(cases)
